@@ -1,5 +1,5 @@
 (* C12 - Change-tracking storages report every insertion, removal and mutable access. *)
-From SV Require Import Store.Raw Store.Masked Store.StoreInv World.Env World.StoreSim Store.Events World.World World.Join World.JoinEvents.
+From SV Require Import Store.Raw Store.Masked Store.StoreInv World.Env World.StoreSim Store.Events World.World World.Join World.JoinEvents World.JoinEventStream.
 
 (* Every operation of the Storage API other than the bulk clear() and the emission switch, on any
    wrapper over any inner kind: the events it appends (oldest first), replayed over the membership
@@ -60,6 +60,14 @@ Theorem C12_events_of_join_accesses : forall ms m a c, MInv ms m ->
   ms_chan (fst (fst (ms_jact ms a c))) = (if ms_emit ms then ev_of_act (ms_wrap ms) a else []) ++ ms_chan ms.
 Proof. exact ms_jact_chan. Qed.
 
+(* joins as a whole: whatever the tuple and the kind of join, a tracked storage's channel receives exactly the events
+   of the mutable accesses and removals the join's rows show, in visit order (most recent first in the model's list),
+   and nothing else; nothing when emission is off *)
+Theorem C12_a_join_reports_exactly_its_mutable_accesses_and_removals : forall e av eids hs k ms s, TInv e ->
+  cx_stuck (se_cx (fst (env_join e av eids hs k ms))) = false ->
+  env_chan (fst (env_join e av eids hs k ms)) s = jout_evs s (tag e s) hs ms (snd (env_join e av eids hs k ms)) ++ env_chan e s.
+Proof. exact join_event_stream. Qed.
+
 Print Assumptions C12_events_replay_membership.
 Print Assumptions C12_replay_composes.
 Print Assumptions C12_insert_reports.
@@ -67,3 +75,4 @@ Print Assumptions C12_entity_deletion_reports.
 Print Assumptions C12_modified_exactly_on_mutable_access.
 Print Assumptions C12_read_only_is_silent.
 Print Assumptions C12_events_of_join_accesses.
+Print Assumptions C12_a_join_reports_exactly_its_mutable_accesses_and_removals.
